@@ -99,7 +99,7 @@ DProj(kind, e) ==
 
 \* ret = [yield, lens, rem]: n items taken, exact lengths before each poll,
 \* rem = what the cursor still holds (as shown by Debug / a clone / count)
-\* op = the cursor op: op.fin \in {"none", "nth", "last", "fold"} (op.j for nth) says how the
+\* op = the cursor op: op.fin \in {"none", "nth", "find", "any", "all", "position", "last", "fold"} (with op.j) says how the
 \* rest is consumed after the n plain next() calls; F = the entries that call hands to the caller
 DEpisode(D, kind, n, op, ret, Y, F) ==   \* Y = the set of entries that were yielded
   /\ Len(ret.yield) = n /\ DNoRepeat(ret.yield)
@@ -114,8 +114,12 @@ DEpisode(D, kind, n, op, ret, Y, F) ==   \* Y = the set of entries that were yie
   /\ LET m == Cardinality(D) - n IN      \* items still to come
      /\ F \subseteq D \ Y /\ DNoRepeat(ret.fin.r) /\ DRange(ret.fin.r) = {DProj(kind, e) : e \in F}
      /\ CASE op.fin = "none" -> F = {} /\ ret.fin.some = "nofin" /\ ret.fin.after = m
-          [] op.fin = "nth"  -> IF op.j < m THEN Cardinality(F) = 1 /\ ret.fin.some = "item" /\ ret.fin.after = m - op.j - 1
+          [] op.fin \in {"nth", "find"} ->
+                                IF op.j < m THEN Cardinality(F) = 1 /\ ret.fin.some = "item" /\ ret.fin.after = m - op.j - 1
                                 ELSE F = {} /\ ret.fin.some = "none" /\ ret.fin.after = 0
+          [] op.fin \in {"any", "all", "position"} ->      \* short-circuit at index j, or run through everything
+                                IF op.j < m THEN F = {} /\ ret.fin.some = "hit" /\ ret.fin.after = m - op.j - 1
+                                ELSE F = {} /\ ret.fin.some = "miss" /\ ret.fin.after = 0
           [] op.fin = "last" -> IF m > 0 THEN Cardinality(F) = 1 /\ ret.fin.some = "item" /\ ret.fin.after = 0
                                 ELSE F = {} /\ ret.fin.some = "none" /\ ret.fin.after = 0
           [] op.fin = "fold" -> F = D \ Y /\ ret.fin.some = "seq" /\ ret.fin.after = 0
